@@ -130,6 +130,13 @@ LAYOUTS = {
     # synchronous RPDO 2 (transmission type 1) which nobody streams.  canopen documents "the first RPDO that
     # has that index configured" as the one it uses
     "J": {"rpdo": {1: [(0x6040, 16)]}, "rpdo_sync": {2: [(0x6040, 16), (0x607A, 32)]}, "tpdo": {1: [(0x6041, 16)]}},
+    # the statusword is mapped in two valid TPDOs (as in the CiA 402 default mapping).  K: TPDO 1 is synchronous
+    # and silent (no SYNC is produced), the event-driven TPDO 2 behind it carries every change - the mirror image
+    # of I.  L: two event-driven TPDOs, both carry it (at different byte offsets)
+    "K": {"rpdo": {1: [(0x6040, 16)]}, "tpdo_sync": {1: [(0x6041, 16)]},
+          "tpdo": {2: [(0x6041, 16), (0x6061, 8)]}},
+    "L": {"rpdo": {1: [(0x6040, 16), (0x6060, 8)]},
+          "tpdo": {1: [(0x6041, 16)], 2: [(0x6061, 8), (0x6041, 16)]}},
 }
 RPDO_BASE = [0x200, 0x300, 0x400, 0x500]
 TPDO_BASE = [0x180, 0x280, 0x380, 0x480]
@@ -222,6 +229,8 @@ class RefDrive402:
         self.sw_count = 0               # statuswords produced
         self.sw_reads = 0               # SDO reads of 0x6041
         self.bad_access = []            # accesses a conformant master must not make
+        self.observed = []              # state shown at every statusword observation (SDO read / time slice)
+        self.tpdo_sent = {}             # TPDO number -> frames sent so far
         self.last_cw = cw0
         self.state = None
         self.auto_left = None
@@ -261,6 +270,7 @@ class RefDrive402:
                 self._auto()
             else:
                 self.auto_left -= 1
+        self.observed.append(self.state)
 
     mode_rx = None      # last value received for 0x6060 (repeats of a cyclic RPDO included)
     force_sw = None     # decode family: answer with this word whatever the state
@@ -506,6 +516,7 @@ class RefDrive402:
                 else:
                     data += bytes(bits // 8)
             out.append(Frame(TPDO_BASE[n - 1] + self.node_id, data, src=self.port))
+            self.tpdo_sent[n] = self.tpdo_sent.get(n, 0) + 1
         return out
 
     def _send(self, frames):
@@ -521,6 +532,14 @@ class RefDrive402:
             return
         self._dirty = False
         self._send(self._tpdo_frames(only_changed=True))
+
+    def idle_slice(self):
+        """Event-driven variants with a pending automatic transition: a stretch of time passes in
+        which the master only waits - one observation; what changed is reported by event TPDO."""
+        with self.lock:
+            self.observe()
+            self._mode_display()
+            self._emit_event_tpdos()
 
     def announce(self):
         """All TPDOs once (what a drive does when it enters NMT OPERATIONAL)."""
